@@ -490,9 +490,14 @@ pub fn chase(
                 )));
             }
 
-            // Do we have a default value?, i.e. $arg_name(defualt_value)
-            if parts.len() == 2 && !chasing {
-                default = parts.pop().unwrap();
+            // Do we have a default value?, i.e. $arg_name(default_value). The first
+            // default met during a chase stands, but a later one must still be taken
+            // off the list, so that the name (not the default) becomes the next needle
+            if parts.len() == 2 {
+                let given = parts.pop().unwrap();
+                if default.is_empty() {
+                    default = given;
+                }
             }
             chasing = true;
             needle = parts.pop().unwrap();
